@@ -11,10 +11,9 @@ Open Scope list_scope.
 (* ---------------------------------------------------------------------------------------- *)
 
 Lemma value_on_holds : forall c k v,
-  (v = None -> cb_blind c k) ->
-  (value_on c k v = true <-> Holds c (value_crit k) v).
+  value_on c k v = true <-> Holds c (value_crit k) v.
 Proof.
-  intros c k v Hb; destruct k as [|x| | |f]; cbn [value_on value_crit].
+  intros c k v; destruct k as [|x| | |f]; cbn [value_on value_crit].
   - destruct v; cbn; split; intro H; try discriminate; try constructor. inversion H.
   - destruct v as [w|]; split; intro H.
     + now constructor.
@@ -23,18 +22,13 @@ Proof.
     + inversion H.
   - destruct v; cbn; split; intro H; try discriminate; try constructor. inversion H.
   - destruct v; cbn; split; intro H; try discriminate; try constructor. inversion H.
-  - destruct v as [w|].
-    + split; intro H; [constructor; exact H | inversion H; subst; assumption].
-    + specialize (Hb eq_refl); cbn in Hb. split; intro H.
-      * constructor. cbn. rewrite <- Hb. exact H.
-      * inversion H; subst. cbn in *. rewrite Hb. assumption.
+  - split; intro H; [constructor; exact H | inversion H; subst; assumption].
 Qed.
 
 Lemma side_on_holds : forall c k v,
-  (v = None -> cb_blind c k) ->
-  (side_on c k v = true <-> SideHolds c k v).
+  side_on c k v = true <-> SideHolds c k v.
 Proof.
-  intros c k v Hb; destruct k as [|x| | |f]; cbn [side_on].
+  intros c k v; destruct k as [|x| | |f]; cbn [side_on].
   - split; intros; [constructor | reflexivity].
   - destruct v as [w|]; split; intro H.
     + apply S_specified; [discriminate | now constructor].
@@ -49,13 +43,9 @@ Proof.
     + inversion H as [|? ? ? HH]; subst. inversion HH.
     + apply S_specified; [discriminate | constructor].
     + reflexivity.
-  - destruct v as [w|].
-    + split; intro H.
-      * apply S_specified; [discriminate | constructor; exact H].
-      * inversion H as [|? ? ? HH]; subst. inversion HH; subst. assumption.
-    + specialize (Hb eq_refl); cbn in Hb. split; intro H.
-      * apply S_specified; [discriminate |]. constructor. cbn. rewrite <- Hb. exact H.
-      * inversion H as [|? ? ? HH]; subst. inversion HH; subst. cbn in *. rewrite Hb. assumption.
+  - split; intro H.
+    + apply S_specified; [discriminate | constructor; exact H].
+    + inversion H as [|? ? ? HH]; subst. inversion HH; subst. assumption.
 Qed.
 
 Lemma meta_item_holds : forall c content key k,
@@ -156,18 +146,18 @@ Proof.
     try (left; repeat split; reflexivity); right; intros (A & B & C); discriminate.
 Qed.
 
-(* update handlers: the code is the documented semantics (given blind callbacks) *)
+(* update handlers: the code is the documented semantics *)
 Lemma field_update_iff : forall h c p,
-  h_field h = Some p -> updating h c -> cbs_blind h c ->
+  h_field h = Some p -> updating h c ->
   (matches_field_values h c && matches_field_changes h c = true <-> FieldHolds h c).
 Proof.
-  intros h c p Hp (Hh & Hc & Hn) (Bv & Bo & Bn).
+  intros h c p Hp (Hh & Hc & Hn).
   unfold matches_field_values, matches_field_changes, field_values. rewrite Hp, Hh, Hc, Hn. cbn [negb existsb orb].
   set (old := resolve_opt (c_old c) p). set (new := resolve_opt (c_new c) p).
   rewrite orb_false_r.
   rewrite !andb_true_iff, orb_true_iff, negb_true_iff.
-  rewrite (value_on_holds c (h_value h) new (fun _ => Bv)), (value_on_holds c (h_value h) old (fun _ => Bv)).
-  rewrite (side_on_holds c (h_old h) old (fun _ => Bo)), (side_on_holds c (h_new h) new (fun _ => Bn)).
+  rewrite (value_on_holds c (h_value h) new), (value_on_holds c (h_value h) old).
+  rewrite (side_on_holds c (h_old h) old), (side_on_holds c (h_new h) new).
   split.
   - intros ([Hnew|Hold] & (Haff & Ho) & Hnw); eapply F_update; eauto; repeat split; auto.
   - intro H. inversion H as [Hnone | p' Hp' _ Hv Haff Ho Hnw | p' Hp' Hnu _].
@@ -206,15 +196,14 @@ Proof.
 Qed.
 
 Lemma field_iff : forall h c,
-  wf_decl h -> class_agree h c -> essence_ok h c -> cbs_blind h c -> old_silent h c ->
+  wf_decl h -> class_agree h c -> essence_ok h c -> old_silent h c ->
   (matches_field_values h c && matches_field_changes h c = true <-> FieldHolds h c).
 Proof.
-  intros h c Hwf Hcl Hess Hblind Hsilent.
+  intros h c Hwf Hcl Hess Hsilent.
   destruct (h_field h) as [p|] eqn:Hp.
   2:{ rewrite (field_nofield h c Hp). split; intros; [now apply F_nofield | reflexivity]. }
   destruct (updating_dec h c) as [Hu|Hnu].
-  { exact (field_update_iff h c p Hp Hu Hblind). }
-  destruct Hblind as (Bv & _ & _).
+  { exact (field_update_iff h c p Hp Hu). }
   destruct (is_changing c) eqn:Hc.
   - (* create / resume / delete handlers on a changing cause *)
     assert (Hh : h_is_changing h = true) by (unfold class_agree in Hcl; congruence).
@@ -226,12 +215,12 @@ Proof.
     rewrite orb_true_iff.
     split.
     + intros [H|H]; [|apply Hsilent in H]; eapply F_current; eauto;
-        rewrite <- Hess; apply (value_on_holds c _ _ (fun _ => Bv)); assumption.
+        rewrite <- Hess; apply (value_on_holds c _ _); assumption.
     + intro H. inversion H as [Hnone | p' Hp' Hu' | p' Hp' _ Hv]; [congruence | contradiction |].
       rewrite Hp in Hp'; injection Hp' as <-. left.
-      apply (value_on_holds c _ _ (fun _ => Bv)). rewrite Hess. exact Hv.
+      apply (value_on_holds c _ _). rewrite Hess. exact Hv.
   - rewrite (field_other_static h c p Hp Hc).
-    rewrite (value_on_holds c _ _ (fun _ => Bv)).
+    rewrite (value_on_holds c _ _).
     split.
     + intro H; eapply F_current; eauto.
     + intro H. inversion H as [Hnone | p' Hp' Hu' | p' Hp' _ Hv]; [congruence | contradiction |].
@@ -246,14 +235,14 @@ Lemma when_iff : forall h c, matches_when h c = true <-> WhenHolds h c.
 Proof. intros h c. unfold matches_when, WhenHolds. destruct (h_when h); tauto. Qed.
 
 Theorem match_iff_spec_partial : forall h c,
-  wf_decl h -> body_ok c -> class_agree h c -> essence_ok h c -> cbs_blind h c -> old_silent h c ->
+  wf_decl h -> body_ok c -> class_agree h c -> essence_ok h c -> old_silent h c ->
   (matches h c = Ok true <-> Matches h c).
 Proof.
-  intros h c Hwf Hbody Hcl Hess Hblind Hsilent.
+  intros h c Hwf Hbody Hcl Hess Hsilent.
   rewrite (matches_total h c Hbody). unfold matches_b.
   assert (HL := meta_forallb_holds c (meta_of c "labels") (h_labels h) (wf_labels h Hwf)).
   assert (HA := meta_forallb_holds c (meta_of c "annotations") (h_annotations h) (wf_annotations h Hwf)).
-  assert (HF := field_iff h c Hwf Hcl Hess Hblind Hsilent).
+  assert (HF := field_iff h c Hwf Hcl Hess Hsilent).
   assert (HW := when_iff h c).
   fold (meta_b c (h_labels h) "labels") in HL. fold (meta_b c (h_annotations h) "annotations") in HA.
   split.
@@ -325,7 +314,7 @@ Lemma ex_body_ok_watching : forall f, body_ok (ex_watching f).
 Proof. intros. split; eexists; reflexivity. Qed.
 
 Theorem match_iff_spec_refuted :
-  exists h c, wf_decl h /\ body_ok c /\ class_agree h c /\ essence_ok h c /\ cbs_blind h c /\
+  exists h c, wf_decl h /\ body_ok c /\ class_agree h c /\ essence_ok h c /\
               matches h c = Ok true /\ ~ Matches h c.
 Proof.
   exists ex_create_absent, ex_created_with_f.
@@ -333,7 +322,6 @@ Proof.
   split; [apply ex_body_ok_changing|].
   split; [reflexivity|].
   split; [intros _ p Hp; injection Hp as <-; reflexivity|].
-  split; [repeat split|].
   split; [reflexivity|].
   intros [_ _ _ HF _].
   inversion HF as [Hnone | p Hp Hu | p Hp _ Hv].
@@ -346,31 +334,13 @@ Qed.
 Definition ex_event_isnone : hdecl :=
   decorate DEvent "e" 0 ex_sel [] [] None (Some ["spec"; "f"]) (CCb cb_is_none) CNone CNone.
 
-Theorem match_iff_spec_refuted_callback :
-  exists h c, wf_decl h /\ body_ok c /\ class_agree h c /\ essence_ok h c /\ old_silent h c /\
-              matches h c = Ok false /\ Matches h c.
-Proof.
-  exists ex_event_isnone, (ex_watching None).
-  split; [exact (ex_wf DEvent _ _ _ _ CNone CNone)|].
-  split; [apply ex_body_ok_watching|].
-  split; [reflexivity|].
-  split; [intros H; discriminate|].
-  split; [apply old_silent_static; reflexivity|].
-  split; [reflexivity|].
-  constructor.
-  - reflexivity.
-  - constructor.
-  - constructor.
-  - eapply F_current; [reflexivity | intros (_ & H & _); discriminate |].
-    cbn. constructor. reflexivity.
-  - exact I.
-Qed.
+
 
 (* ---------------------------------------------------------------------------------------- *)
 (* 6. update handlers: value on old OR new, old=/new= each on its side, and the field differs *)
 (* ---------------------------------------------------------------------------------------- *)
 Theorem update_field_semantics : forall h c p,
-  body_ok c -> h_field h = Some p -> updating h c -> cbs_blind h c ->
+  body_ok c -> h_field h = Some p -> updating h c ->
   let old := resolve_opt (c_old c) p in
   let new := resolve_opt (c_new c) p in
   (matches h c = Ok true <->
@@ -379,9 +349,9 @@ Theorem update_field_semantics : forall h c p,
      (Holds c (value_crit (h_value h)) old \/ Holds c (value_crit (h_value h)) new) /\
      affected old new /\ SideHolds c (h_old h) old /\ SideHolds c (h_new h) new).
 Proof.
-  intros h c p Hbody Hp Hu Hblind old new.
+  intros h c p Hbody Hp Hu old new.
   rewrite (matches_total h c Hbody). unfold matches_b.
-  pose proof (field_update_iff h c p Hp Hu Hblind) as HF.
+  pose proof (field_update_iff h c p Hp Hu) as HF.
   pose proof (when_iff h c) as HW.
   split.
   - intro H. injection H as H.
@@ -422,22 +392,45 @@ Lemma ex_unchanged_field_changed_sibling :   (* spec.g changed 5 -> 0, spec.f st
   prematches (ex_update (CVal (JNum 1)) CNone CNone) (ex_upd (Some (JNum 1)) (Some (JNum 1)) 5) = Ok true.
 Proof. repeat split; reflexivity. Qed.
 
+(* regression for the repaired F15b (commit b981eb5): the callback gets None for the absent field, so the
+   handler matches, as documented; and it cannot tell an absent field from a null one *)
+Lemma callback_absent_regression :
+  matches ex_event_isnone (ex_watching None) = Ok true /\ Matches ex_event_isnone (ex_watching None) /\
+  matches ex_event_isnone (ex_watching (Some JNull)) = Ok true /\
+  matches ex_event_isnone (ex_watching (Some (JNum 0))) = Ok false /\
+  matches (decorate DEvent "e" 0 ex_sel [] [] None (Some ["spec"; "f"]) (CCb cb_not_none) CNone CNone)
+          (ex_watching None) = Ok false /\
+  matches (decorate DEvent "e" 0 ex_sel [] [] None (Some ["spec"; "f"]) (CCb cb_truthy) CNone CNone)
+          (ex_watching None) = Ok false /\
+  matches (decorate DUpdate "u" 0 ex_sel [] [] None (Some ["spec"; "f"]) CNone (CCb cb_is_none) (CCb (cb_eq (JNum 0))))
+          (ex_upd None (Some (JNum 0)) 0) = Ok true.
+Proof.
+  split; [reflexivity|]. split; [|repeat split; reflexivity].
+  constructor.
+  - reflexivity.
+  - constructor.
+  - constructor.
+  - eapply F_current; [reflexivity | intros (_ & H & _); discriminate |].
+    cbn. constructor. reflexivity.
+  - exact I.
+Qed.
+
 (* ---------------------------------------------------------------------------------------- *)
 (* 7. other handlers: the current state only?                                                *)
 (* ---------------------------------------------------------------------------------------- *)
 (* event / daemon / timer / index: yes *)
 Theorem non_update_current_only_static : forall h c p,
-  body_ok c -> is_changing c = false -> h_field h = Some p -> cb_blind c (h_value h) ->
+  body_ok c -> is_changing c = false -> h_field h = Some p ->
   (matches h c = Ok true <->
      matches_resource h (c_resource c) = true /\ meta_b c (h_labels h) "labels" = true /\
      meta_b c (h_annotations h) "annotations" = true /\ WhenHolds h c /\
      Holds c (value_crit (h_value h)) (resolve (c_body c) p)).
 Proof.
-  intros h c p Hbody Hc Hp Bv.
+  intros h c p Hbody Hc Hp.
   rewrite (matches_total h c Hbody). unfold matches_b.
   pose proof (field_other_static h c p Hp Hc) as HF.
   pose proof (when_iff h c) as HW.
-  pose proof (value_on_holds c (h_value h) (resolve (c_body c) p) (fun _ => Bv)) as HV.
+  pose proof (value_on_holds c (h_value h) (resolve (c_body c) p)) as HV.
   split.
   - intro H. injection H as H.
     repeat (apply andb_true_iff in H; destruct H as [? H]).
@@ -451,20 +444,20 @@ Qed.
 (* create / resume / delete: as the code behaves, the new OR the old state *)
 Theorem non_update_current_only_partial : forall h c p,
   wf_decl h -> body_ok c -> h_is_changing h = true -> is_changing c = true -> h_needs_change h = false ->
-  h_field h = Some p -> cb_blind c (h_value h) ->
+  h_field h = Some p ->
   (matches h c = Ok true <->
      matches_resource h (c_resource c) = true /\ meta_b c (h_labels h) "labels" = true /\
      meta_b c (h_annotations h) "annotations" = true /\ WhenHolds h c /\
      (Holds c (value_crit (h_value h)) (resolve_opt (c_new c) p) \/
       Holds c (value_crit (h_value h)) (resolve_opt (c_old c) p))).
 Proof.
-  intros h c p Hwf Hbody Hh Hc Hn Hp Bv.
+  intros h c p Hwf Hbody Hh Hc Hn Hp.
   destruct (wf_oldnew h Hwf Hn) as [Ho Hnw].
   rewrite (matches_total h c Hbody). unfold matches_b.
   pose proof (field_other_changing h c p Hp Hh Hc Hn Ho Hnw) as HF.
   pose proof (when_iff h c) as HW.
-  pose proof (value_on_holds c (h_value h) (resolve_opt (c_new c) p) (fun _ => Bv)) as HV1.
-  pose proof (value_on_holds c (h_value h) (resolve_opt (c_old c) p) (fun _ => Bv)) as HV2.
+  pose proof (value_on_holds c (h_value h) (resolve_opt (c_new c) p)) as HV1.
+  pose proof (value_on_holds c (h_value h) (resolve_opt (c_old c) p)) as HV2.
   split.
   - intro H. injection H as H.
     repeat (apply andb_true_iff in H; destruct H as [? H]).
@@ -755,7 +748,7 @@ Definition ex_guarded_cause (new : option json) : cause :=
 
 Lemma ex_guards : forall new,
   wf_decl ex_guarded /\ body_ok (ex_guarded_cause new) /\ class_agree ex_guarded (ex_guarded_cause new) /\
-  essence_ok ex_guarded (ex_guarded_cause new) /\ cbs_blind ex_guarded (ex_guarded_cause new) /\
+  essence_ok ex_guarded (ex_guarded_cause new) /\
   old_silent ex_guarded (ex_guarded_cause new).
 Proof.
   intro new. split.
@@ -763,7 +756,6 @@ Proof.
   split; [split; eexists; reflexivity|].
   split; [reflexivity|].
   split; [intros _ p Hp; injection Hp as <-; destruct new; reflexivity|].
-  split; [repeat split|].
   apply old_silent_update. reflexivity.
 Qed.
 
